@@ -13,7 +13,7 @@ from pbsym.runner import Unit
 from pbsym.stubs import standard_patches
 from pbsym.symnd import SymND, plain, sym_dft
 
-from .common import (RV, bcast_index, cneq, compare_signals, iterm, magnitude_bound, meta_checks, neq, rterm,
+from .common import (cis, cmul, dft_terms, RV, bcast_index, cneq, compare_signals, iterm, magnitude_bound, meta_checks, neq, rterm,
                      select, zceil, zfloor, zmax, zmin)
 
 META = {
@@ -169,6 +169,136 @@ class IntShift(Unit):
         return f"time_shift:int:{label.split('[')[0]}"
 
 
+class FracShift(IntShift):
+    """real-valued shifts: every spectral bin is multiplied by exp(-2 pi i k' s/N); rows whose source lies
+    outside the input are exactly zero for every element."""
+
+    def __init__(self, N, sshape, shift_shape, cplx=True, crop=False, t0=True):
+        IntShift.__init__(self, N, sshape, shift_shape, cplx=cplx, crop=crop, t0=t0)
+        self.name = "frac" + self.name[3:]
+        self.bounds["|s|<"] = self.bounds.pop("|s|<=") + 1
+        self.bounds["shift values"] = "real (integer or fractional)"
+
+    def build(self, S):
+        N = self.N
+        shape = (N,) + self.sshape
+        z = S.carray("z", shape) if self.cplx else S.rarray("z", shape)
+        dt = S.real("dt")
+        S.assume(dt > Fraction(1, 10**9))
+        S.assume(dt < 1000)
+        sr = S.quantity(1 / dt, u.Hz)
+        t0 = None
+        if self.t0:
+            t0v = S.real("t0")
+            S.assume(t0v > -10**6)
+            S.assume(t0v < 10**6)
+            t0 = S.time(t0v)
+        sig = pb.Signal(z, sample_rate=sr, start_time=t0)
+        lim = self.smax + 1
+
+        def mk(name):
+            v = S.real(name)
+            S.assume(v > -lim)
+            S.assume(v < lim)
+            return v
+        if self.shift_shape == ():
+            sh = mk("s")
+            full = np.full(self.sshape, None, dtype=object)
+            for ix in np.ndindex(*self.sshape):
+                full[ix] = sh
+        else:
+            sh = np.empty(self.shift_shape, dtype=object)
+            for ix in np.ndindex(*self.shift_shape):
+                sh[ix] = mk("s_" + "_".join(map(str, ix)))
+            pad = sh.reshape(self.shift_shape + (1,) * (len(self.sshape) - len(self.shift_shape)))
+            full = np.broadcast_to(pad, self.sshape)
+            if S.symbolic:
+                sh = SymND(sh, np.float64)
+            else:
+                sh = np.asarray(sh, dtype=float)
+        # time_shift treats shifts that are all within numpy.allclose tolerance (1e-8) of zero as "no shift";
+        # that tolerance band is outside the claim: either all shifts are exactly 0 or some |s| > 1e-6
+        ts = [rterm(full[ix]) for ix in np.ndindex(*self.sshape)]
+        eps = RV(Fraction(1, 10**6))
+        S.assume(z3.Or(z3.And([t == 0 for t in ts]), z3.Or([z3.Or(t > eps, -t > eps) for t in ts])))
+        return {"sig": sig, "z": z, "shift": sh, "full": full, "dt": dt}
+
+    def spec(self, S, a, out):
+        N = self.N
+        if isinstance(out, Raised):
+            return [("no-exception", z3.BoolVal(True))]
+        vin, vo = SigView(a["sig"]), SigView(out)
+        checks = []
+        z = plain(a["z"]) if S.symbolic else a["z"]
+        mag = magnitude_bound(S, a["z"])
+        tol = 3e-5 * mag * max(1, N)
+        svals = {ix: rterm(a["full"][ix]) for ix in np.ndindex(*self.sshape)}
+        dt = rterm(a["dt"])
+        cs = [z3.If(s > 0, zceil(s), z3.IntVal(0)) for s in svals.values()]       # zeroed rows at the front
+        fl = [z3.If(s < 0, zfloor(s), z3.IntVal(0)) for s in svals.values()]      # (negative) zeroed rows at the back
+        if self.crop:
+            start = zmax([z3.IntVal(0)] + cs)
+            stop = N + zmin([z3.IntVal(0)] + fl)
+            L = z3.If(stop > start, stop - start, 0)
+            checks.append(("length", vo.length != L))
+            checks += meta_checks(S, vin, vo, what=("cls", "sr"))
+            if vin.t0 is None:
+                checks.append(("start_time", z3.BoolVal(vo.t0 is not None)))
+            elif vo.t0 is None:
+                checks.append(("start_time", z3.BoolVal(True)))
+            else:
+                checks.append(("start_time", z3.And(L > 0, neq(S, vo.t0, vin.t0 + z3.ToReal(start) * dt, 1e-7))))
+        else:
+            start = z3.IntVal(0)
+            checks.append(("length", vo.length != N))
+            checks += meta_checks(S, vin, vo, what=("cls", "sr", "t0"), tol_t=1e-9)
+        nout = vo.nlen
+        checks.append(("dtype", z3.BoolVal(vo.dtype != vin.dtype)))
+        allzero = S.decide(z3.And([s == 0 for s in svals.values()]))
+        for ix in np.ndindex(*self.sshape):
+            s = svals[ix]
+            col = [cterm(z[(m,) + ix]) for m in range(N)]
+            if allzero:
+                # zero shift: the delay is the identity
+                bad = [cneq(S, vo.elem(k, ix), col[k], tol) for k in range(min(nout, N))]
+                checks.append((f"elem{list(ix)}", z3.Or(bad) if bad else z3.BoolVal(False)))
+                continue
+            X = dft_terms(col)
+            variants = []
+            nyq = [None] if N % 2 or N == 0 else [N // 2, -(N // 2)]
+            for ny in nyq:
+                Yk = []
+                for k in range(N):
+                    kk = k if k < (N + 1) // 2 else k - N
+                    if ny is not None and k == N // 2:
+                        kk = ny
+                    Yk.append(cmul(X[k], cis(S, -s * RV(kk) / N)))
+                variants.append(dft_terms(Yk, inverse=True))
+            # the path has already fixed ceil/floor of every shift: read the (unique) values off the path condition
+            zero_front = S.concretize(z3.If(s > 0, zceil(s), z3.IntVal(0)))
+            zero_back = S.concretize(z3.If(s < 0, zfloor(s), z3.IntVal(0)))
+            start_c = S.concretize(start)
+            bad = []
+            for k in range(nout):
+                n = start_c + k
+                o = vo.elem(k, ix)
+                is_zero = z3.BoolVal(n < zero_front or n >= N + zero_back)
+                alts = []
+                for Y in variants:
+                    yr = select([y[0] for y in Y], n, z3.RealVal(0))
+                    yi = select([y[1] for y in Y], n, z3.RealVal(0))
+                    if not self.cplx:
+                        yi = z3.RealVal(0)
+                    alts.append(cneq(S, o, (yr, yi), tol))
+                bad.append(z3.If(is_zero, z3.Or(o[0] != 0, o[1] != 0), z3.And(alts)))
+            checks.append((f"elem{list(ix)}", z3.Or(bad) if bad else z3.BoolVal(False)))
+        return checks
+
+    def signature(self, label, values, detail):
+        sig = IntShift.signature(self, label, values, detail)
+        return sig.replace("time_shift:int:", "time_shift:frac:")
+
+
 def units(tier):
     us = []
     Ns = (1, 2, 3, 4) if tier == "quick" else (1, 2, 3, 4, 6, 8)
@@ -190,4 +320,11 @@ def units(tier):
             us.append(IntShift(N, ss, sh, cplx=False, crop=(N % 2 == 0), t0=False))
         us.append(IntShift(N, (2,), (2,), cplx=True, crop=True, as_quantity=True))
         us.append(IntShift(N, (), (), cplx=False, crop=False, as_quantity=True))
+    # (ii) real-valued shifts
+    for N in ((2, 4) if tier == "quick" else (1, 2, 4)):
+        for ss, sh in (((), ()), ((2,), (2,)), ((2,), ()), ((2,), (1,)), ((2, 2), (2, 1)), ((2, 2), (2,))):
+            if N >= 4 and len(ss) == 2 and tier == "quick":
+                continue
+            us.append(FracShift(N, ss, sh, cplx=True, crop=False))
+            us.append(FracShift(N, ss, sh, cplx=(N != 2), crop=True, t0=(N != 4)))
     return us
